@@ -73,7 +73,7 @@ def h_milp(s, rows, c, U, integers, minimize, heuristics=True, warm=None, lns=0,
     st = res.status
     # with a tight node / pivot limit the outcome depends on which node is explored first, and exact ties in "most fractional" (1/3 vs 2/3)
     # are broken by float rounding natively: such runs are held to the obligations but not compared value-by-value with the native run
-    limited = max_nodes < 500 or lp_budget
+    limited = max_nodes < 500 or lp_budget or solution_limit > 1  # (pool: how many solutions are met before the tree is exhausted hangs on pruning ties)
     if not limited:
         s.observe("status", int(st))
     else:
